@@ -256,9 +256,31 @@ def term(case, res):
     return 3
 
 
+RICH_TY = {"Tup": ["U32", {"Opt": {"Vec": "Str"}}, {"Enum": ["I64", "Str"]}, "Bool"]}
+EMB_TY = {"dm_u32": "U32", "dm_rich": RICH_TY}
+
+
+def gen_emb(rng):
+    flow = rng.choice(["dm_u32", "dm_rich", "dm_rich"])
+    t = EMB_TY[flow]
+    members = rng.sample(list(range(6)), rng.range(1, 5))
+    items = [[rng.choice(members), gen_val(rng, t)] for _ in range(rng.below(8))]
+    return {"k": "emb", "flow": flow, "sender": rng.below(6), "members": members, "items": items}
+
+
+def emb_term(case, res):
+    if "wire" not in res:
+        return 3
+    t = EMB_TY[case["flow"]]
+    items = vlib.g_list(["(%d, %s)" % (d, g_val(t, v)) for d, v in case["items"]])
+    wire = vlib.g_list(["(%d, %s)" % (d, g_bytes(b)) for d, b in res["wire"]])
+    recv = vlib.g_list(["(%d, %s)" % (m, vlib.g_list(["(%d, %s)" % (s, g_val(t, v)) for s, v in got])) for m, got in res["recv"]])
+    return "(chk_emb %s %d %s %s %s %s)" % (g_ty(t), case["sender"], vlib.g_list(["%d" % m for m in case["members"]]), items, wire, recv)
+
+
 def shrink(case):
     k = case["k"]
-    if k in ("demux", "wire"):
+    if k in ("demux", "wire", "emb"):
         it = case["items"]
         for i in range(len(it)):
             yield dict(case, items=it[:i] + it[i + 1:])
